@@ -395,11 +395,18 @@ class HistogramND(HistogramBase):
             raise ValueError(
                 f"Expecting array with {self.ndim} columns, {values_array.shape[1]} found."
             )
-        if dropna:
-            values_array = values_array[~np.isnan(values_array).any(axis=1)]
         if weights is not None:
             weights = np.asarray(weights)
-            # TODO: Check for weights size?
+            if weights.shape != (values_array.shape[0],):
+                raise ValueError(
+                    f"Weights must have shape ({values_array.shape[0]},), {weights.shape} found."
+                )
+        if dropna:
+            array_mask = ~np.isnan(values_array).any(axis=1)
+            values_array = values_array[array_mask]
+            if weights is not None:
+                weights = weights[array_mask]
+        if weights is not None:
             self._coerce_dtype(weights.dtype)
         for i, binning in enumerate(self._binnings):
             if binning.is_adaptive():
